@@ -177,6 +177,7 @@ def prep_body(body):
             assigns.setdefault(t['dest']['l'], []).append(('call', t))
     refs = {}
     alias = {}     # local holding a reference derived from another reference local
+    alias_via = {}  # ... through a call that selects a PART of the pointee (`buf[a..b]`): the call term (its index operand names the part)
     for l, rvs in assigns.items():
         if len(rvs) != 1:
             continue
@@ -185,6 +186,8 @@ def prep_body(body):
             t = rv[1]
             if REF_PRESERVING.search(t['callee']) and t['args'] and op_local(t['args'][0]) is not None:
                 alias[l] = op_local(t['args'][0])
+                if len(t['args']) == 2 and t['callee'].endswith('::index_mut'):
+                    alias_via[l] = t
             continue
         if rv['r'] in ('ref', 'rawptr'):
             refs[l] = (rv['pl'], rv.get('mut', False))
@@ -264,7 +267,18 @@ def prep_body(body):
                     r = resolve_ref(al)
                     if r is None or isinstance(r[0], tuple):
                         continue
-                    add_def(bi, idx, r[0], 'mut', term=t, argi=ai, proj=r[1])
+                    via = []
+                    x_ = al
+                    for _ in range(10):
+                        if x_ in alias_via:
+                            via.append(alias_via[x_])
+                        if x_ in alias:
+                            x_ = alias[x_]
+                        elif x_ in refs and (refs[x_][0].get('p') or [None])[0] == '*':
+                            x_ = refs[x_][0]['l']
+                        else:
+                            break
+                    add_def(bi, idx, r[0], 'mut', term=t, argi=ai, proj=r[1], via=via)
             if not t['dest'].get('p'):
                 add_def(bi, idx, t['dest']['l'], 'call', term=t)
             else:
@@ -357,11 +371,12 @@ TRANSPARENT = (
     '::to_alloc_vec',
     '::as_le_slice',
     'soroban_sdk::Bytes::from_slice',
+    'soroban_sdk::Bytes::from_array::<',
     'soroban_sdk::BytesN::<32>::from_array',
     'soroban_sdk::BytesN::<64>::from_array',
 )
 # for these the interesting operand is not argument 0 (env first)
-TRANSPARENT_ARG1 = ('soroban_sdk::Bytes::from_slice', 'soroban_sdk::BytesN::<32>::from_array',
+TRANSPARENT_ARG1 = ('soroban_sdk::Bytes::from_slice', 'soroban_sdk::Bytes::from_array::<', 'soroban_sdk::BytesN::<32>::from_array',
                     'soroban_sdk::BytesN::<64>::from_array')
 
 
@@ -435,6 +450,7 @@ class EntryGraph:
         self._pre_cache = {}
         self._pred = None
         self._build_ctx_tree()
+        self._term_cache = {}      # terms evaluated while resolving fn pointers saw an incomplete tree
         self._explore()
 
     def abi_params(self):
@@ -517,7 +533,15 @@ class EntryGraph:
                 if self.walked(t):
                     ck = t['callee']
                     cc = t.get('closure_call', False)
-                else:
+                elif t['callee'].startswith('INDIRECT') and t.get('func'):
+                    # a call through a `fn` pointer: in this calling context the pointer is a known function item (passed down as an
+                    # argument) - walk it like a direct call; an unresolvable pointer stays an opaque effect (model.py)
+                    ft = self.term_operand(c, bi, len(b['st']), t['func'])
+                    while isinstance(ft, tuple) and ft and ft[0] == 'cast':
+                        ft = ft[3]
+                    if isinstance(ft, tuple) and ft and ft[0] == 'fn' and len(ft) > 2 and ft[2] in self.crate.inst:
+                        ck = ft[2]
+                elif not t['callee'].startswith('INDIRECT'):
                     lk = self.leaf_closure(t)
                     if lk:
                         ck = lk
@@ -599,7 +623,7 @@ class EntryGraph:
                 pb = ctx.body['promoted'][o['promoted']]
                 return self._promoted_term(ctx, o['promoted'], pb)
             if 'fn' in o:
-                return ('fn', o['fn'])
+                return ('fn', o['fn'], o.get('fnkey'))
             if 'item' in o:
                 return ('const', o['v'], o['item'])
             return ('const', o['v'])
@@ -816,6 +840,13 @@ class EntryGraph:
             old = self.term_local(ctx, d['bb'], d['idx'], d['local'], depth)
             args = tuple(self.term_operand(ctx, d['bb'], d['idx'], a, depth)
                          for i, a in enumerate(t['args']) if i != d['argi'])
+            if d.get('via'):
+                # the part of the variable the call wrote (`buf[a..b].copy_from_slice(src)`): the index operands, evaluated where the
+                # sub-slice was taken
+                vb = {id(blk_['term']): bi_ for bi_, blk_ in enumerate(ctx.body['blocks'])}
+                vt = tuple(self.term_operand(ctx, vb[id(v_)], len(ctx.body['blocks'][vb[id(v_)]]['st']), v_['args'][1], depth)
+                           for v_ in d['via'] if id(v_) in vb)
+                return ('mut', t['callee'], old, args, vt)
             return ('mut', t['callee'], old, args)
         if k == 'partial':
             old = self.term_local(ctx, d['bb'], d['idx'], d['local'], depth)
@@ -1548,6 +1579,21 @@ class EntryGraph:
     def exit_sids(self, pred):
         """success-exit state ids whose abstract return value satisfies pred(v0)"""
         return [s for s, k, v in self.exits if k == 'ok' and pred(v)]
+
+    def exit_term(self, sid):
+        """the entry's return value as a term, evaluated for the paths that end in exit state sid only (definitions that cannot
+        reach that state are dropped, so a value merged from several paths is the alternative of this path)"""
+        cid, bb = self.states[sid][0], self.states[sid][1]
+        ctx = self.ctxs[cid]
+        S = frozenset([sid])
+        old = (self._in_top, self._S, self._S_id)
+        self._in_top = True
+        self._S = S
+        self._S_id = self._S_ids.setdefault(S, len(self._S_ids) + 1)
+        try:
+            return self._term_local(ctx, bb, len(ctx.body['blocks'][bb]['st']), 0)
+        finally:
+            self._in_top, self._S, self._S_id = old
 
     def states_after(self, nodes, blocked_nodes=(), blocked_edges=()):
         starts = []
